@@ -7,12 +7,19 @@ Scenario format: see tools/props/c10.py (gen_scenario).  A native script handed 
 as a script object (via=witness), through a separate UTxO that carries it (via=ref: add_script_input(u, script=<UTxO>),
 add_minting_script / add_withdrawal_script / add_certificate_script(<UTxO>)), in the output of the spent UTxO itself (via=self),
 or by the builder's own search of the context at the script address (via=lookup); 'extra_refs' are UTxOs written to
-builder.reference_inputs directly."""
+builder.reference_inputs directly.
+Plutus scripts (entries of 'plutus': how = input / mint / withdrawal / cert, language version, script bytes, explicit execution
+units) are handed over as script objects (via=witness) or through a separate UTxO that carries them (via=ref).  build() may
+extend the transaction itself: 'input_addresses' / 'potential' feed coin selection (needed when 'outputs' ask for more than
+the explicit inputs hold), and when the scenario gives no collateral the builder picks it from the inputs, the potential
+inputs or the wallet at 'collateral_change' (default: the change address).  The builder's inputs / collaterals after the
+build are returned next to the transaction."""
 from _pre import *
 from pycardano import (Address, Network, TransactionBuilder, TransactionInput, TransactionOutput, TransactionId,
                        UTxO, Value, MultiAsset, Asset, AssetName, VerificationKeyHash, ScriptHash, PoolKeyHash,
                        ScriptPubkey, ScriptAll, ScriptAny, ScriptNofK, InvalidBefore, InvalidHereAfter,
                        Withdrawals, ProtocolParameters, GenesisParameters, ChainContext,
+                       PlutusV1Script, PlutusV2Script, PlutusV3Script, PlutusData, Redeemer, ExecutionUnits, datum_hash,
                        script_hash, SigningKey, ExtendedSigningKey, PaymentSigningKey, StakeSigningKey, StakePoolSigningKey,
                        PaymentExtendedSigningKey, StakeExtendedSigningKey)
 from pycardano.certificate import (
@@ -37,7 +44,7 @@ class Ctx(ChainContext):
             max_block_header_size=1100, key_deposit=2000000, pool_deposit=500000000, pool_influence=0.3,
             treasury_expansion=0.2, monetary_expansion=0.003, decentralization_param=0, extra_entropy="",
             protocol_major_version=9, protocol_minor_version=0, min_utxo=1000000, min_pool_cost=340000000,
-            price_mem=0.0577, price_step=0.0000721, max_tx_ex_mem=10000000, max_tx_ex_steps=10000000000,
+            price_mem=Fraction(577, 10000), price_step=Fraction(721, 10000000), max_tx_ex_mem=10000000, max_tx_ex_steps=10000000000,
             max_block_ex_mem=50000000, max_block_ex_steps=40000000000, max_val_size=5000, collateral_percent=150,
             max_collateral_inputs=3, coins_per_utxo_word=34482, coins_per_utxo_byte=4310, cost_models={},
             min_fee_reference_scripts={"base": 15, "range": 25600, "multiplier": 1.2},
@@ -96,6 +103,13 @@ def mk_ns(j):
     if k == 'after':
         return InvalidHereAfter(j[1])
     raise ValueError(k)
+
+
+PLUTUS_CLS = {1: PlutusV1Script, 2: PlutusV2Script, 3: PlutusV3Script}
+
+
+def mk_plutus(ver, body_hex):
+    return PLUTUS_CLS[ver](H(body_hex))
 
 
 def cred_obj(c):
@@ -187,7 +201,16 @@ def prepare(sc):
         amount = Value(u['coin'])
         if u.get('tokens'):
             amount = Value(u['coin'], MultiAsset({ScriptHash(H(p)): Asset({AssetName(H(n)): q}) for p, n, q in u['tokens']}))
-        out = TransactionOutput(addr, amount, script=mk_ns(u['script'])) if u.get('script') is not None else TransactionOutput(addr, amount)
+        kw = {}
+        if u.get('script') is not None:
+            kw['script'] = mk_ns(u['script'])
+        elif u.get('pscript') is not None:
+            kw['script'] = mk_plutus(*u['pscript'])
+        if u.get('datum') == 'hash':
+            kw['datum_hash'] = datum_hash(PlutusData())
+        elif u.get('datum') == 'inline':
+            kw['datum'] = PlutusData()
+        out = TransactionOutput(addr, amount, **kw)
         x = UTxO(TransactionInput(TransactionId(H(u['txid'])), u['ix']), out)
         utxos.append(x)
         by_addr.setdefault(str(addr), []).append(x)
@@ -198,8 +221,20 @@ def prepare(sc):
         a = attached[i]
         return utxos[a['ref_utxo']] if a.get('via', 'witness') == 'ref' else att_scripts[i]
     att_inputs = {a['utxo']: i for i, a in enumerate(attached) if a['how'] == 'input'}
+    plutus = sc.get('plutus', [])
+    pl_inputs = {a['utxo']: a for a in plutus if a['how'] == 'input'}
+
+    def pl_supplied(a):
+        return utxos[a['ref_utxo']] if a['via'] == 'ref' else mk_plutus(a['ver'], a['body'])
+
+    def pl_redeemer(a):
+        return Redeemer(PlutusData(), ExecutionUnits(a['mem'], a['steps']))
     for i in sc['inputs']:
-        if i in att_inputs:
+        if i in pl_inputs:
+            a = pl_inputs[i]
+            datum = PlutusData() if sc['utxos'][i].get('datum') == 'hash' else None
+            b.add_script_input(utxos[i], script=pl_supplied(a), datum=datum, redeemer=pl_redeemer(a))
+        elif i in att_inputs:
             a = attached[att_inputs[i]]
             via = a.get('via', 'witness')
             if via == 'ref':
@@ -214,6 +249,10 @@ def prepare(sc):
         b.reference_inputs.add(utxos[i])
     for a in sc.get('input_addresses', []):
         b.add_input_address(Address(cred_obj(a), network=NET))
+    for i in sc.get('potential', []):
+        b.potential_inputs.append(utxos[i])
+    for o in sc.get('outputs', []):
+        b.add_output(TransactionOutput(Address(cred_obj(o[0]), network=NET), o[1]))
     for i in sc['collateral']:
         b.collaterals.append(utxos[i])
     if sc['required_signers'] is not None:
@@ -239,6 +278,22 @@ def prepare(sc):
                 b.certificates = []
             b.certificates.append(StakeDelegation(StakeCredential(att_scripts[i].hash()), POOL))
             b.add_certificate_script(supplied(i))
+    for i, a in enumerate(plutus):
+        scr = mk_plutus(a['ver'], a['body'])
+        h = script_hash(scr)
+        if a['how'] == 'mint':
+            b.add_minting_script(pl_supplied(a), pl_redeemer(a))
+            ma = b.mint or MultiAsset()
+            ma += MultiAsset({h: Asset({AssetName(b'P%d' % i): 1})})
+            b.mint = ma
+        elif a['how'] == 'withdrawal':
+            b.add_withdrawal_script(pl_supplied(a), pl_redeemer(a))
+            wd[bytes(Address(staking_part=h, network=NET))] = 1000000
+        elif a['how'] == 'cert':
+            if not b.certificates:
+                b.certificates = []
+            b.certificates.append(StakeDelegation(StakeCredential(h), POOL))
+            b.add_certificate_script(pl_supplied(a), pl_redeemer(a))
     if wd:
         b.withdrawals = Withdrawals(wd)
     for v in sc['voters']:
@@ -250,9 +305,19 @@ def prepare(sc):
     return b
 
 
+def outpoints(l):
+    return [[u.input.transaction_id.payload.hex(), u.input.index] for u in l]
+
+
 def handler(sc, payload):
     out = {}
     b = prepare(sc)
+    pp = b.context.protocol_param
+    rs = pp.min_fee_reference_scripts
+    assert float(rs['base']).is_integer() and float(rs['range']).is_integer()
+    out['pp'] = [pp.min_fee_coefficient, pp.min_fee_constant, Fraction(pp.price_mem).numerator, Fraction(pp.price_mem).denominator,
+                 Fraction(pp.price_step).numerator, Fraction(pp.price_step).denominator, int(rs['base']), int(rs['range'])]
+    pre_inputs, pre_cols = outpoints(b.inputs), outpoints(b.collaterals)
     out['slice'] = {
         'required_signers': hexset(b._required_signer_vkey_hashes()),
         'inputs': hexset(b._input_vkey_hashes()),
@@ -273,8 +338,12 @@ def handler(sc, payload):
             kw = {}
             if sc.get('auto') is not None:
                 kw['auto_required_signers'] = sc['auto']
+            if sc.get('collateral_change') is not None:
+                kw['collateral_change_address'] = Address(cred_obj(sc['collateral_change']), network=NET)
             tx = b.build_and_sign(keys, change_address=change, force_skeys=sc['force'], **kw)
             out['tx'] = tx.to_cbor().hex()
+            out['sel_inputs'] = [x for x in outpoints(b.inputs) if x not in pre_inputs]
+            out['sel_collateral'] = [x for x in outpoints(b.collaterals) if x not in pre_cols]
             out['req_post'] = hexset(b._build_required_vkeys())
             out['n_fake_post'] = len(b._build_fake_vkey_witnesses())
             out['n_inputs'] = len(tx.transaction_body.inputs)
